@@ -200,6 +200,12 @@ def mode_phases(p):
         for ncls in (2, 3):
             rs = np.random.RandomState(SEED * 100 + 31 + cases)
             m = O.mk_machine(rs, "jfa", C, D, rU, rV)
+            if ncls == 3:
+                # a residual scale with exact zeros (the [0, 1, 0, 1, ...] pattern; D = 0 switches the residual term off)
+                from fractions import Fraction as _Fr
+                dz = m._D.copy()
+                dz[::2] = _Fr(0)
+                m._D = dz
             sizes = [int(rs.randint(1, 3)) for _ in range(ncls)]
             X, y = [], []
             for k, sz in enumerate(sizes):
